@@ -69,6 +69,39 @@ Example C03_demo :
   snd (exit_ctx (run_items (enter_ctx m0) blk)) = Ok.
 Proof. vm_compute. repeat split. Qed.
 
+(* non-vacuity of the hypotheses: scaling by a negative factor and both modes of remove_metabolites, nested,
+   satisfy `ok_items`; the state really changes inside the block                                     *)
+Definition m1 : st :=
+  run [NewRxn 0 (Fn (q (-3))) (Fn (q 10)) [(0, q (-1)); (1, q 2)]; AddRxn 0;
+       NewRxn 1 (Fn (q 0)) (Fn (q 5)) [(1, q (-1))]; AddRxn 1; SetObj [(1, q 1)]] (init_u [0; 1] [0; 1]).
+Definition blk2 : list item :=
+  [Op (Imul 0 (q (-2))); Block [Op (RemoveMet 0 false); Op (Imul 1 (q 3))]; Op (RemoveMet 1 true)].
+Example C03_demo2_ok : ok_items (enter_ctx m1) blk2.
+Proof.
+  cbn [ok_items blk2 ok_item]. repeat split. all: vm_compute.
+  all: try reflexivity. all: try discriminate. all: repeat constructor; cbn; intuition discriminate.
+Qed.
+Lemma m1_Inv : Inv m1.
+Proof.
+  unfold m1, run. cbn [fold_left].
+  repeat (apply step_Inv; [|split; [try exact I; try (intros m Hm; vm_compute in Hm; vm_compute; tauto); try (vm_compute; tauto)|exact I]]).
+  apply init_Inv.
+Qed.
+Lemma m1_V : V m1.
+Proof.
+  intros r. vm_compute. destruct r as [|p|p]; try reflexivity. destruct p as [p|p|]; reflexivity.
+Qed.
+Example C03_demo2 :
+  lb (run_items (enter_ctx m1) blk2) 0 = Fn (q (-10)) /\ ub (run_items (enter_ctx m1) blk2) 0 = Fn (q 3) /\
+  sto (run_items (enter_ctx m1) blk2) 0 1 = q (-4) /\ rin (run_items (enter_ctx m1) blk2) 0 = false /\
+  min (run_items (enter_ctx m1) blk2) 1 = false /\
+  exit_ctx (run_items (enter_ctx m1) blk2) = (m1, Ok).
+Proof.
+  do 5 (split; [vm_compute; reflexivity|]).
+  apply C03_context_restores_partial; [exact m1_Inv|exact m1_V|exact C03_demo2_ok].
+Qed.
+
+(* ============================ kernel II: gene bookkeeping (coq/theories/Genes) ============================
    Contexts at SPECIFICATION level: entering a block saves the state, leaving it puts the saved state back (no undo
    closures are modelled; that the implementation does the same is compared on the real objects by the check,
    Genes/Check.v `restored`, code 4).  Proved here: the gene invariant of C02 holds along every history with
@@ -106,37 +139,3 @@ Example C03_genes_block_nonvacuous :
 Proof. vm_compute. repeat split. Qed.
 Print Assumptions C03_genes_block_nonvacuous.
 End GenesKernel.
-=======
-(* non-vacuity of the hypotheses: scaling by a negative factor and both modes of remove_metabolites, nested,
-   satisfy `ok_items`; the state really changes inside the block                                     *)
-Definition m1 : st :=
-  run [NewRxn 0 (Fn (q (-3))) (Fn (q 10)) [(0, q (-1)); (1, q 2)]; AddRxn 0;
-       NewRxn 1 (Fn (q 0)) (Fn (q 5)) [(1, q (-1))]; AddRxn 1; SetObj [(1, q 1)]] (init_u [0; 1] [0; 1]).
-Definition blk2 : list item :=
-  [Op (Imul 0 (q (-2))); Block [Op (RemoveMet 0 false); Op (Imul 1 (q 3))]; Op (RemoveMet 1 true)].
-Example C03_demo2_ok : ok_items (enter_ctx m1) blk2.
-Proof.
-  cbn [ok_items blk2 ok_item]. repeat split. all: vm_compute.
-  all: try reflexivity. all: try discriminate. all: repeat constructor; cbn; intuition discriminate.
-Qed.
-Lemma m1_Inv : Inv m1.
-Proof.
-  unfold m1, run. cbn [fold_left].
-  repeat (apply step_Inv; [|split; [try exact I; try (intros m Hm; vm_compute in Hm; vm_compute; tauto); try (vm_compute; tauto)|exact I]]).
-  apply init_Inv.
-Qed.
-Lemma m1_V : V m1.
-Proof.
-  intros r. vm_compute. destruct r as [|p|p]; try reflexivity. destruct p as [p|p|]; reflexivity.
-Qed.
-Example C03_demo2 :
-  lb (run_items (enter_ctx m1) blk2) 0 = Fn (q (-10)) /\ ub (run_items (enter_ctx m1) blk2) 0 = Fn (q 3) /\
-  sto (run_items (enter_ctx m1) blk2) 0 1 = q (-4) /\ rin (run_items (enter_ctx m1) blk2) 0 = false /\
-  min (run_items (enter_ctx m1) blk2) 1 = false /\
-  exit_ctx (run_items (enter_ctx m1) blk2) = (m1, Ok).
-Proof.
-  do 5 (split; [vm_compute; reflexivity|]).
-  apply C03_context_restores_partial; [exact m1_Inv|exact m1_V|exact C03_demo2_ok].
-Qed.
-
-(* ============================ kernel II: gene bookkeeping (coq/theories/Genes) =====================
